@@ -100,7 +100,21 @@ def replay(expr, n, rho, body):
 def mk(expr):
     from qibo import gates
 
-    return eval(expr, {"gates": gates, "np": np, "math": math})  # noqa: S307 - our own strings
+    obj = eval(expr, {"gates": gates, "np": np, "math": math})  # noqa: S307 - our own strings
+    try:
+        obj._c04_expr = expr
+    except Exception:
+        pass
+    return obj
+
+
+def report_raise(ctx, expr, n, what, e, broken):
+    """a documented call of the real code raised: a finding, not a crash of the check."""
+    cls = expr.split("(")[0].replace("gates.", "")
+    ctx.fail(f"raises:{cls}:{what}", f"{expr} on {n} qubits: {what} raised {type(e).__name__}: {e}",
+             replay(expr, n, np.eye(2**n), "_execute(ch, rho, n, nb)\nnp.asarray(nb.apply_channel_density_matrix(mk(), rho.astype(complex), n))\n"
+                    "mk().to_choi(nqubits=n); mk().to_liouville(nqubits=n); mk().to_pauli_liouville(nqubits=n)"),
+             observed=f"{type(e).__name__}: {e}", broken=[broken])
 
 
 # ---------------------------------------------------------------------------
@@ -164,8 +178,26 @@ def exact_suite(ctx):
     lines, meta = [], []  # meta: (key, descr, expr/None, n, rho, real_scaled, replay_body_builder)
 
     def add(line, key, descr, n, rho, real, scale, expr, call):
+        if real is None:  # the real code raised: already reported
+            return
         lines.append(line)
         meta.append((key, descr, n, rho, real, scale, expr, call))
+
+    def mk(expr):  # guarded twins of the module-level helpers
+        try:
+            return globals()["mk"](expr)
+        except Exception as e:  # noqa: BLE001
+            report_raise(ctx, expr, 1, "constructor", e, "C04_corr_exact")
+            return None
+
+    def _execute(ch, rho, n, nb):
+        if ch is None:
+            return None
+        try:
+            return globals()["_execute"](ch, rho, n, nb)
+        except Exception as e:  # noqa: BLE001
+            report_raise(ctx, getattr(ch, "_c04_expr", repr(ch)), n, "execution", e, "C04_corr_exact")
+            return None
 
     # (a) generic Kraus path: integer operators on arbitrary ordered tuples, one tuple per operator
     for n in range(1, nmax + 1):
@@ -235,7 +267,11 @@ def exact_suite(ctx):
                     ctx.stat("exact_depol")
                     # its own Pauli operators through the constructor model (generic path)
                     if k <= 2 and (n <= 3):
-                        real2 = np.asarray(nb.apply_channel_density_matrix(mk(expr), rho.copy(), n))
+                        try:
+                            real2 = np.asarray(nb.apply_channel_density_matrix(mk(expr), rho.copy(), n))
+                        except Exception as e:  # noqa: BLE001
+                            report_raise(ctx, expr, n, "apply_channel_density_matrix", e, "C04_corr_exact")
+                            real2 = None
                         sc2 = 16 * 4**k
                         add(f"GDEPOLC {n} {k} {' '.join(map(str, qs))} {sc2} 0 {a} 0 {gi_tokens(rho)}", "generic:DepolarizingChannel", f"Depolarizing{qs} lam={a}/16 generic path", n, rho, real2, sc2, expr, "generic")
     # (d) Pauli noise channel through the constructor model, dyadic probabilities (scale 16)
@@ -258,8 +294,12 @@ def exact_suite(ctx):
             M = np.array([[complex(rng.randint(-2, 2), rng.randint(-1, 1)) for _ in range(4)] for _ in range(4)])
             rho = int_rho(rng, n)
             g = gates.Unitary(M, q, q + n, check_unitary=False)
-            real = np.asarray(nb.thermal_error_density_matrix(g, rho.copy(), n))
             expr = f"gates.Unitary({arr_expr(M)}, {q}, {q + n}, check_unitary=False)"
+            try:
+                real = np.asarray(nb.thermal_error_density_matrix(g, rho.copy(), n))
+            except Exception as e:  # noqa: BLE001
+                report_raise(ctx, expr, n, "thermal_error_density_matrix", e, "C04_corr_exact")
+                real = None
             add(f"GTHERMLO {n} {q} {gi_tokens(M)} {gi_tokens(rho)}", "backend:thermal_error_density_matrix", f"thermal_error_density_matrix q={q}", n, rho, real, 1, expr, "thermal_backend")
             ctx.stat("exact_thermal_matrix")
 
@@ -374,54 +414,60 @@ def float_suite(ctx, insts):
     nb = qgates.np_backend()
     rng = ctx.rng
     lines, meta = [], []
+    def one(cls, reg, expr, n, lean):
+            rho = int_rho(rng, n)
+            ch = mk(expr)
+            ex = _execute(ch, rho, n, nb)
+            ch2 = mk(expr)
+            km = _kraus_map(ch2, rho, n, nb)
+            ctx.case(("float", expr, n))
+            ctx.stat(f"float_{cls}{reg}")
+            if len(ctx.samples) < 9 and rng.random() < 0.02:
+                ctx.sample({"suite": "float", "n": n, "channel": expr})
+            # (3) trace preservation of the declared operators (non-negative weights)
+            ops = _kraus_ops(ch2, n, nb)
+            G = sum(c * K.conj().T @ K for c, K in ops)
+            tp_bad = not np.allclose(G, np.eye(2**n), atol=TOL) or any(c < -TOL for c, _ in ops)
+            if tp_bad:
+                ctx.fail(f"kraus-tp:{cls}{reg}", f"{expr}: the channel's own operators are not trace preserving (sum c K^dagger K != 1)",
+                         replay(expr, n, rho, "G = sum(c * K.conj().T @ K for c, K in _kraus_ops(ch, n, nb))\n"
+                                "assert np.allclose(G, np.eye(2**n), atol=1e-9), np.round(G, 6)"),
+                         expected="identity", observed=str(np.round(G, 6).tolist()), broken=["C04_search_tp"])
+            if abs(np.trace(ex) - np.trace(rho)) > TOL:
+                ctx.fail(f"exec-trace:{cls}{reg}", f"{expr}: execution changes the trace",
+                         replay(expr, n, rho, "out = _execute(ch, rho, n, nb)\nassert abs(np.trace(out) - np.trace(rho)) < 1e-9, (np.trace(out), np.trace(rho))"),
+                         expected=str(np.trace(rho)), observed=str(np.trace(ex)), broken=["C04_search_tp"])
+            # (1) execution == own Kraus map (when the declared operators are not even trace
+            # preserving that defect is the root cause and is reported once, above)
+            exec_bad = not np.allclose(ex, km, atol=TOL)
+            if exec_bad and not tp_bad:
+                ctx.fail(f"exec:{cls}{reg}", f"{expr} on {n} qubits: density-matrix execution differs from sum_k c_k K_k rho K_k^dagger of the channel's own operators",
+                         replay(expr, n, rho, "out = _execute(ch, rho, n, nb)\nref = _kraus_map(mk(), rho, n, nb)\nassert np.allclose(out, ref, atol=1e-9), np.abs(out - ref).max()"),
+                         expected=str(np.round(km, 9).tolist()), observed=str(np.round(ex, 9).tolist()), broken=["C04_search_exec"])
+            # (2) generic path on the same class
+            gen = np.asarray(nb.apply_channel_density_matrix(mk(expr), rho.astype(complex), n))
+            if not np.allclose(gen, km, atol=TOL):
+                ctx.fail(f"generic:{cls}{reg}", f"{expr}: apply_channel_density_matrix differs from the Kraus map of the channel's own operators",
+                         replay(expr, n, rho, "out = np.asarray(nb.apply_channel_density_matrix(ch, rho.astype(complex), n))\nref = _kraus_map(mk(), rho, n, nb)\nassert np.allclose(out, ref, atol=1e-9), np.abs(out - ref).max()"),
+                         expected=str(np.round(km, 9).tolist()), observed=str(np.round(gen, 9).tolist()), broken=["C04_search_exec"])
+            # execution leaves the caller's state alone and is repeatable on the same object
+            r0 = rho.astype(complex)
+            ex2 = _execute(ch, r0, n, nb)
+            if not np.array_equal(r0, rho) or not np.allclose(ex2, ex, atol=TOL):
+                ctx.fail(f"repeat:{cls}{reg}", f"{expr}: a second execution of the same channel object differs / the input state is modified",
+                         replay(expr, n, rho, "a = _execute(ch, rho, n, nb)\nb = _execute(ch, rho, n, nb)\nassert np.allclose(a, b, atol=1e-9)"),
+                         broken=["C04_search_exec"])
+            for tag, ln in lean:
+                lines.append(f"{ln} {ftokens(rho)}")
+                # the model is compared with the execution; where the execution is already known to
+                # deviate from the (trace-preserving) declared operators, with their Kraus map
+                meta.append((cls, reg, expr, n, rho, km if (exec_bad and not tp_bad) else ex, "kraus" if (exec_bad and not tp_bad) else "exec", tag))
+
     for cls, reg, expr, n, lean in insts:
-        rho = int_rho(rng, n)
-        ch = mk(expr)
-        ex = _execute(ch, rho, n, nb)
-        ch2 = mk(expr)
-        km = _kraus_map(ch2, rho, n, nb)
-        ctx.case(("float", expr, n))
-        ctx.stat(f"float_{cls}{reg}")
-        if len(ctx.samples) < 9 and rng.random() < 0.02:
-            ctx.sample({"suite": "float", "n": n, "channel": expr})
-        # (3) trace preservation of the declared operators (non-negative weights)
-        ops = _kraus_ops(ch2, n, nb)
-        G = sum(c * K.conj().T @ K for c, K in ops)
-        tp_bad = not np.allclose(G, np.eye(2**n), atol=TOL) or any(c < -TOL for c, _ in ops)
-        if tp_bad:
-            ctx.fail(f"kraus-tp:{cls}{reg}", f"{expr}: the channel's own operators are not trace preserving (sum c K^dagger K != 1)",
-                     replay(expr, n, rho, "G = sum(c * K.conj().T @ K for c, K in _kraus_ops(ch, n, nb))\n"
-                            "assert np.allclose(G, np.eye(2**n), atol=1e-9), np.round(G, 6)"),
-                     expected="identity", observed=str(np.round(G, 6).tolist()), broken=["C04_search_tp"])
-        if abs(np.trace(ex) - np.trace(rho)) > TOL:
-            ctx.fail(f"exec-trace:{cls}{reg}", f"{expr}: execution changes the trace",
-                     replay(expr, n, rho, "out = _execute(ch, rho, n, nb)\nassert abs(np.trace(out) - np.trace(rho)) < 1e-9, (np.trace(out), np.trace(rho))"),
-                     expected=str(np.trace(rho)), observed=str(np.trace(ex)), broken=["C04_search_tp"])
-        # (1) execution == own Kraus map (when the declared operators are not even trace
-        # preserving that defect is the root cause and is reported once, above)
-        exec_bad = not np.allclose(ex, km, atol=TOL)
-        if exec_bad and not tp_bad:
-            ctx.fail(f"exec:{cls}{reg}", f"{expr} on {n} qubits: density-matrix execution differs from sum_k c_k K_k rho K_k^dagger of the channel's own operators",
-                     replay(expr, n, rho, "out = _execute(ch, rho, n, nb)\nref = _kraus_map(mk(), rho, n, nb)\nassert np.allclose(out, ref, atol=1e-9), np.abs(out - ref).max()"),
-                     expected=str(np.round(km, 9).tolist()), observed=str(np.round(ex, 9).tolist()), broken=["C04_search_exec"])
-        # (2) generic path on the same class
-        gen = np.asarray(nb.apply_channel_density_matrix(mk(expr), rho.astype(complex), n))
-        if not np.allclose(gen, km, atol=TOL):
-            ctx.fail(f"generic:{cls}{reg}", f"{expr}: apply_channel_density_matrix differs from the Kraus map of the channel's own operators",
-                     replay(expr, n, rho, "out = np.asarray(nb.apply_channel_density_matrix(ch, rho.astype(complex), n))\nref = _kraus_map(mk(), rho, n, nb)\nassert np.allclose(out, ref, atol=1e-9), np.abs(out - ref).max()"),
-                     expected=str(np.round(km, 9).tolist()), observed=str(np.round(gen, 9).tolist()), broken=["C04_search_exec"])
-        # execution leaves the caller's state alone and is repeatable on the same object
-        r0 = rho.astype(complex)
-        ex2 = _execute(ch, r0, n, nb)
-        if not np.array_equal(r0, rho) or not np.allclose(ex2, ex, atol=TOL):
-            ctx.fail(f"repeat:{cls}{reg}", f"{expr}: a second execution of the same channel object differs / the input state is modified",
-                     replay(expr, n, rho, "a = _execute(ch, rho, n, nb)\nb = _execute(ch, rho, n, nb)\nassert np.allclose(a, b, atol=1e-9)"),
-                     broken=["C04_search_exec"])
-        for tag, ln in lean:
-            lines.append(f"{ln} {ftokens(rho)}")
-            # the model is compared with the execution; where the execution is already known to
-            # deviate from the (trace-preserving) declared operators, with their Kraus map
-            meta.append((cls, reg, expr, n, rho, km if (exec_bad and not tp_bad) else ex, "kraus" if (exec_bad and not tp_bad) else "exec", tag))
+        try:
+            one(cls, reg, expr, n, lean)
+        except Exception as e:  # noqa: BLE001 - the real code raised on a documented input
+            report_raise(ctx, expr, n, "execution", e, "C04_search_exec")
     outs = run_driver(lines, driver=DRIVER)
     bad = 0
     for (cls, reg, expr, n, rho, ref, refname, tag), out in zip(meta, outs):
@@ -472,9 +518,13 @@ def user_suite(ctx, insts):
     lines, meta = [], []
     for cls, reg, expr, n, _ in insts:
         rho = int_rho(ctx.rng, n)
-        ch = mk(expr)
-        ex = _execute(ch, rho, n, nb)
-        km = _kraus_map(mk(expr), rho, n, nb)
+        try:
+            ch = mk(expr)
+            ex = _execute(ch, rho, n, nb)
+            km = _kraus_map(mk(expr), rho, n, nb)
+        except Exception as e:  # noqa: BLE001
+            report_raise(ctx, expr, n, "execution", e, "C04_search_exec")
+            continue
         ctx.case(("user", expr[:80], n))
         ctx.stat(f"float_{cls}")
         if not np.allclose(ex, km, atol=TOL):
@@ -600,7 +650,11 @@ def views_suite(ctx, insts, users):
         chosen += rng.sample(pool, min(len(pool), 3 if key[2] <= 2 else 1))
     lines, meta = [], []
     for cls, reg, expr, n, _ in chosen:
-        res = check_views(ctx, cls, reg, expr, n)
+        try:
+            res = check_views(ctx, cls, reg, expr, n)
+        except Exception as e:  # noqa: BLE001
+            report_raise(ctx, expr, n, "execution", e, "C04_search_views")
+            continue
         # default nqubits (1 + max target) is the same map on the smaller register
         ch = mk(expr)
         m = 1 + max(ch.target_qubits)
@@ -680,7 +734,7 @@ def query_suite(ctx, insts, users):
     for key in sorted(buckets):
         pool = buckets[key]
         picks = rng.sample(pool, min(per, len(pool)))
-        for idx, (cls, reg, expr, n, _) in enumerate(picks):
+        def one_pick(idx, cls, reg, expr, n):
             rho = int_rho(rng, n)
             fresh = _execute(mk(expr), rho, n, nb)
             fresh_gen = np.asarray(nb.apply_channel_density_matrix(mk(expr), rho.astype(complex), n))
@@ -728,6 +782,12 @@ def query_suite(ctx, insts, users):
                             "assert np.allclose(ch.to_choi(nqubits=n), mk().to_choi(nqubits=n), atol=1e-9)")
                     ctx.fail(f"query:{cls}{reg}", f"{expr}: after the calls {names} the channel simulates / reports differently from a fresh one",
                              replay(expr, n, rho, body), broken=["C04_search_query"])
+
+        for idx, (cls, reg, expr, n, _) in enumerate(picks):
+            try:
+                one_pick(idx, cls, reg, expr, n)
+            except Exception as e:  # noqa: BLE001 - the real code raised on a documented input
+                report_raise(ctx, expr, n, 'query history', e, 'C04_search_query')
     ctx.ob("C04_search_query", not any("C04_search_query" in f["broken"] for f in ctx.failures), "search", "")
     ctx.notes.append("query invariance: per class/regime, all 6 orders of (to_choi, to_liouville, to_pauli_liouville) and random histories of 8 query variants and executions; afterwards execution, generic backend path, circuit (twice) and views compared with a fresh channel")
 
